@@ -101,6 +101,8 @@ def run_one(spec):
         time.sleep(spec.get('before_close', 0.0))
         pool.close()
         late = pool.apply_async(t_double, (99,))
+        late_others = [pool.map_async(t_double, [1, 2]), pool.imap(t_double, [1, 2]), pool.imap_unordered(t_double, [1, 2]),
+                       pool.starmap_async(t_double, [(1,)]), pool.apply(t_double, (3,)), pool.map(t_double, [1])]
         t1 = time.time()
         pool.join()
         res['join_s'] = round(time.time() - t1, 2)
@@ -119,7 +121,7 @@ def run_one(spec):
                 items.append('missing:%s' % type(exc).__name__)
             res['imap'] = items
             res['imap_expected'] = [2 * i for i in range(spec['imap'])]
-        res['late_refused'] = late is None
+        res['late_refused'] = late is None and all(x is None for x in late_others)
         res['census'] = census(pool, allpids)
     elif kind == 'terminate':
         pool = bp.Pool(spec.get('n', 2), threads=True)
